@@ -470,6 +470,9 @@ func (x *Exec) callStatic(st *State, fr *Frame, instr ssa.Instruction, fn *ssa.F
 			fr.env[iv] = v
 		}
 	}
+	if inRepo && fn.Blocks != nil && x.p.callCycle(x.fn, fn) {
+		x.recursionDuty(st, fr, fn, fc, args, pos)
+	}
 	if fn.Blocks != nil && inRepo && (fn.Parent() != nil || (fc != nil && fc.Transparent)) {
 		if fc != nil && fc.Transparent {
 			x.p.transp[key] = true
@@ -478,9 +481,25 @@ func (x *Exec) callStatic(st *State, fr *Frame, instr ssa.Instruction, fn *ssa.F
 	}
 	if fc == nil {
 		if inRepo {
+			// an in-repo helper without a contract is unfolded at the call site (its loops still need
+			// invariants; recursion is caught by the termination duty above)
+			if fn.Blocks != nil && !x.p.callCycle(x.fn, fn) && !x.p.callCycle(fn, fn) { // callee neither reaches the caller nor itself
+				x.p.transp[key+" (no contract: unfolded)"] = true
+				return x.inline(st, fr, instr, fn, args, nil, pos)
+			}
 			panic(unsupported("call of " + key + " which has no contract (and is not transparent)"))
 		}
-		panic(unsupported("call of external " + externKey(pkg, key) + " which has no contract in spec/externals.spec"))
+		if valueOnlySig(fn.Signature) {
+			// an external function over scalars and strings only cannot touch the caller's memory:
+			// its results are left unconstrained (assumed total, panic-free and without effect on
+			// package state). Paths through it are marked: a failure there must replay to count.
+			ek := externKey(pkg, key)
+			x.p.trusted[ek+" (auto-abstracted: results unconstrained)"] = true
+			st.abstracted = append(st.abstracted, ek)
+			fc = &FuncContract{Pure: true, Trusted: true}
+		} else {
+			panic(unsupported("call of external " + externKey(pkg, key) + " which has no contract in spec/externals.spec"))
+		}
 	}
 	if fc.Trusted {
 		x.p.trusted[externKey(pkg, key)] = true
@@ -1361,19 +1380,126 @@ func (x *Exec) useLemma(st *State, cl *Clause, c *evalCtx) (res *Term) {
 
 // lookupType resolves "*T" / "T" against the verified packages.
 func (p *Program) lookupType(name string) types.Type {
-	ptr := strings.HasPrefix(name, "*")
-	n := strings.TrimPrefix(name, "*")
-	for pkg := range p.verified {
-		if sp, ok := p.pkgs[pkg]; ok {
-			if obj := sp.Pkg.Scope().Lookup(n); obj != nil {
-				if tn, ok := obj.(*types.TypeName); ok {
-					if ptr {
-						return types.NewPointer(tn.Type())
-					}
+	if strings.HasPrefix(name, "*") {
+		if t := p.lookupType(name[1:]); t != nil {
+			return types.NewPointer(t)
+		}
+		return nil
+	}
+	if k := strings.LastIndex(name, "."); k >= 0 {
+		// qualified: <package name or path>.<Type>
+		q, n := name[:k], name[k+1:]
+		for _, sp := range p.prog.AllPackages() {
+			if sp.Pkg.Path() == q || sp.Pkg.Name() == q {
+				if tn, ok := sp.Pkg.Scope().Lookup(n).(*types.TypeName); ok {
 					return tn.Type()
 				}
 			}
 		}
+		return nil
+	}
+	for pkg := range p.verified {
+		if sp, ok := p.pkgs[pkg]; ok {
+			if tn, ok := sp.Pkg.Scope().Lookup(name).(*types.TypeName); ok {
+				return tn.Type()
+			}
+		}
 	}
 	return nil
+}
+
+// recursionDuty: a static call that closes a cycle of the call graph must come with a measure
+// (decreases clause on caller and callee) that is bounded below and strictly smaller at the call.
+func (x *Exec) recursionDuty(st *State, fr *Frame, fn *ssa.Function, fc *FuncContract, args []Value, pos token.Pos) {
+	_, ckey := funcKey(fn)
+	what := fmt.Sprintf("call of %s closes a call cycle back to %s: termination needs a decreasing measure", ckey, x.key)
+	if x.fc == nil || x.fc.Decreases == nil || fc == nil || fc.Decreases == nil || x.entry == nil {
+		return // reported by staticRecursion
+	}
+	// caller's measure at entry
+	ce := &evalCtx{x: x, st: x.entry, heap: x.entry.heap, ghost: x.entry.ghost, vars: x.params, pkg: x.contractPkg(x.fc)}
+	m0, ok0 := x.evalTerm(st, x.fc.Decreases.Expr, x.fc.Decreases.Line, ce)
+	vars := map[string]Value{}
+	names := fc.Params
+	if names == nil {
+		for _, prm := range fn.Params {
+			names = append(names, prm.Name())
+		}
+	}
+	for i, a := range args {
+		if i < len(names) {
+			vars[names[i]] = a
+		}
+	}
+	cc := &evalCtx{x: x, st: st, heap: st.heap, ghost: st.ghost, vars: vars, pkg: x.contractPkg(fc)}
+	m1, ok1 := x.evalTerm(st, fc.Decreases.Expr, fc.Decreases.Line, cc)
+	if !ok0 || !ok1 {
+		x.oblige(st, "termination-call", x.pos(pos), what+" (measure not evaluable)", x.allProps(), tFalse)
+		return
+	}
+	x.oblige(st, "termination-call", x.pos(pos), what, x.allProps(), And(Le(Int(0), m0), Lt(m1, m0)))
+}
+
+// valueOnlySig: every parameter and result is a boolean, number or string (possibly a named type of those).
+func valueOnlySig(sig *types.Signature) bool {
+	if sig.Recv() != nil || sig.Variadic() {
+		return false
+	}
+	ok := func(t *types.Tuple) bool {
+		for i := 0; i < t.Len(); i++ {
+			b, isB := t.At(i).Type().Underlying().(*types.Basic)
+			if !isB || b.Kind() == types.UnsafePointer || b.Info()&(types.IsBoolean|types.IsNumeric|types.IsString) == 0 {
+				return false
+			}
+			if b.Info()&(types.IsFloat|types.IsComplex) != 0 {
+				return false
+			}
+		}
+		return true
+	}
+	return ok(sig.Params()) && ok(sig.Results())
+}
+
+// staticRecursion: termination duties that do not depend on the path: every static call that closes a
+// call cycle where caller or callee has no decreases clause. Emitted once per call site before the
+// paths are run, so that they are reported even when the paths leave the supported subset.
+func (x *Exec) staticRecursion(st *State) {
+	var scan func(g *ssa.Function)
+	scan = func(g *ssa.Function) {
+		for _, b := range g.Blocks {
+			for _, in := range b.Instrs {
+				var cc *ssa.CallCommon
+				switch i := in.(type) {
+				case *ssa.Call:
+					cc = &i.Call
+				case *ssa.Defer:
+					cc = &i.Call
+				case *ssa.Go:
+					cc = &i.Call
+				}
+				if cc == nil {
+					continue
+				}
+				t := cc.StaticCallee()
+				if t == nil || t.Pkg == nil || !x.p.verified[t.Pkg.Pkg.Path()] || t.Blocks == nil || t.Parent() != nil {
+					continue
+				}
+				if !x.p.callCycle(x.fn, t) {
+					continue
+				}
+				tc := x.p.contractFor(t)
+				if x.fc != nil && x.fc.Decreases != nil && tc != nil && tc.Decreases != nil {
+					continue // path-sensitive measure duty at the call
+				}
+				_, ckey := funcKey(t)
+				x.oblige(st, "termination-call", x.pos(in.Pos()),
+					fmt.Sprintf("call of %s closes a call cycle back to %s and there is no decreasing measure: recursion depth is not bounded", ckey, x.key),
+					x.allProps(), tFalse)
+			}
+		}
+		for _, a := range g.AnonFuncs {
+			scan(a)
+		}
+	}
+	scan(x.fn)
 }
